@@ -226,6 +226,9 @@ func Shapes() map[string]*Flow {
 		// dup3: one task consumes two results of one provider plus one of another
 		// (the generated dependency list names the first provider twice)
 		// dupres: the same type requested twice by cff.Results
+		// midres: a cff.Results target whose type another task consumes too; pjoin: two cff.Params values
+		"midres": {Types: st(3), Params: []int{0}, Results: []int{1, 2}, Tasks: []Task{{In: []int{0}, Out: []int{1}, Err: true}, {In: []int{1}, Out: []int{2}, Err: true}}},
+		"pjoin":  {Types: st(3), Params: []int{0, 1}, Results: []int{2}, Tasks: []Task{{In: []int{0, 1}, Out: []int{2}, Err: true}}},
 		"dupres": {Types: st(2), Params: []int{0}, Results: []int{1, 1}, Tasks: []Task{{In: []int{0}, Out: []int{1}, Err: true}}},
 		"dup3":   {Types: st(4), Results: []int{3}, Tasks: []Task{{Out: []int{0, 1}, Err: true}, {Out: []int{2}, Err: true}, {In: []int{0, 1, 2}, Out: []int{3}, Err: true}}},
 	}
